@@ -5,7 +5,9 @@ import jsonschema
 V = os.path.dirname(os.path.dirname(os.path.abspath(__file__)))
 jsonschema.validate(json.load(open(V + "/MANIFEST.json")), json.load(open("/root/.vp/MANIFEST.schema.json")))
 es = json.load(open("/root/.vp/EVIDENCE.schema.json"))
+claimed = {c["property_id"] for c in json.load(open(V + "/MANIFEST.json"))["checks"]}
 for f in sorted(glob.glob(V + "/evidence/*.json")):
+    if os.path.basename(f)[:-5] not in claimed: continue
     jsonschema.validate(json.load(open(f)), es)
     print("ok", os.path.basename(f))
 print("manifest ok")
